@@ -75,6 +75,8 @@ pub fn shapes() -> Vec<Shape> {
     sh("C16", "provider", vec![Int(366, d - 4400), Int(0, 86399), Int(0, 1), Int(0, 3)]),
     sh("C17", "day", vec![Int(0, d - 366)]),
     sh("C17", "hour", vec![Int(0, d - 366), Int(0, 23)]),
+    sh("C17", "day", vec![Int(400, d - 766), Int(-400, 400), Int(0, 1)]),
+    sh("C05", "pure", vec![Int(0, 1), Int(1, 9999), Int(-2, 26)]),
     sh("C18", "object", vec![Int(0, d - 366), Int(0, 23)]),
     sh("C18", "day_cell", vec![Int(0, 11), Int(0, 59)]),
     sh("C18", "hour_cell", vec![Int(0, 59), Int(0, 11)]),
